@@ -3,7 +3,7 @@
 From Coq Require Import List ZArith NArith Bool Arith String.
 Import ListNotations.
 From DD Require Import Base.Sx Base.PyStr Base.Value Diff.Tree Diff.DiffModel Hash.HashModel
-  DiffIO.DiffIOModel DiffIO.DiffIOShow Options.OptModel HashDiff.HashDiffModel.
+  DiffIO.DiffIOModel DiffIO.DiffIOShow Options.OptModel HashDiff.HashDiffModel HashDiff.HashDiffProofsAtoms HashDiff.HashDiffProofsLift.
 Local Open Scope string_scope.
 
 (* the hasher of the model runs: hex of the UTF-8 bytes behind a letter, so that the
@@ -41,3 +41,11 @@ Definition run_c12_ser (F : opts) (a : atom) : sx := sx_str (ser_atom (hoptsF F 
 Definition run_c12_atoms (F : opts) (a b : atom) : sx :=
   SL [sx_bool (pystr_eqb (ser_atom (hoptsF F true false) a) (ser_atom (hoptsF F true false) b));
       sx_bool (match diff_atomF (fun _ _ => []) F a b [] [] with [] => true | _ => false end)].
+
+(* the boolean guard of C12_hash_iff_diff_partial on the generated cases: one character per case *)
+Fixpoint guard_chars (l : list bool) : string :=
+  match l with
+  | [] => EmptyString
+  | b :: r => ((if b then "T" else "F") ++ guard_chars r)%string
+  end.
+Definition run_c12_guards (l : list bool) : string := ("BEGIN" ++ nl ++ guard_chars l ++ nl ++ "END")%string.
